@@ -765,4 +765,17 @@ example : construct "WriteMemoryByAddressResponse" (.wmba 0x1234 1 (some 0x12)) 
     exposed (.wmba 0x12 0x1234 1) = some (.wmba 0x1234 1 (some 0x12)) ∧ (Fields.wmba 0x1234 1 (some 0x12)).Canon := by
   refine ⟨by decide, rfl, by simp [Fields.Canon]⟩
 
+/-! ### the record rule of the field table, spelled out -/
+
+/-- `recs off w` (the DTC-and-status mapping of the ReadDTCInformation list sub-functions, `w = 3`): the number of entries
+    is the number of whole (w+1)-byte records, and entry `i` is (big-endian bytes (w+1)·i .. (w+1)·i+w-1, byte (w+1)·i+w)
+    of the bytes after the header - every record, for any length -/
+theorem recs_rule_positions (w : Nat) (b : Bytes) :
+    (recsAt w b).length = b.length / (w + 1) ∧
+    ∀ i (hi : i < (recsAt w b).length),
+      (recsAt w b)[i] = (fromBE (slice b ((w + 1) * i) w), (b.getD ((w + 1) * i + w) 0).toNat) :=
+  ⟨recsFuel_length w _ b (Nat.le_refl _), fun i hi => recsFuel_getElem w _ b i (Nat.le_refl _) hi⟩
+
+example : recsAt 3 [0, 0, 1, 8, 0, 0, 2, 9] = [(1, 8), (2, 9)] := by decide +kernel
+
 end Gallia.C02
